@@ -815,7 +815,11 @@ def c12_rejects(tier, seed, n=10):
                 args.append((flavor, c, (i * 3) % (len(c["events"]) + 1), seed, 25))
         rs = _pool_map(_reject_case, args)
         items = []
-        for (fl, c, k, _s, _t), (st, res) in zip(args, rs):
+        for a, (st, res) in zip(args, rs):
+            (fl, c, k, _s, _t) = a
+            if st == "hang":
+                # a watchdog cut on a loaded machine is not a verdict: once more, alone, generous watchdog
+                st, res = _reject_case(a[:-1] + (90,))
             if st != "ok":
                 fails.append({"kind": "hang" if st == "hang" else "raw-exception", "flavor": flavor, "case": c, "detail": f"reject run: {st} {res}"})
                 continue
@@ -899,6 +903,8 @@ def c12_directed(tier, seed):
     for flavor in ("sync", "async"):
         for c in directed_cases():
             st, res = cut_run(flavor, c, 30)
+            if st == "hang":
+                st, res = cut_run(flavor, c, 120)
             evals += 1
             if st != "ok" or res["status"] != "ok":
                 fails.append({"kind": "raw-exception" if st == "crash" else st, "flavor": flavor, "case": c, "detail": f"{st}: {res if st != 'ok' else res['status']}"})
